@@ -112,6 +112,14 @@ def presentations(ck, rng, recs, paths, base_rows, tier):
     out.append(("split_%d_files" % k, [f(fmt.write_fasta(p)) for p in parts], None))
     # one-record first part
     out.append(("split_first_part_one_record", [f(fmt.write_fasta(recs[:1])), f(fmt.write_fasta(recs[1:]))], None))
+    # every part a single record carrying gap characters (and: a gapped record on stdin plus a bare file)
+    if n <= 12:
+        grow = gen.insert_gaps(rng, seqs, 0.4, "-")
+        out.append(("split_every_record_its_own_gapped_file", [f(fmt.write_fasta([(nm, r)])) for nm, r in zip(names, grow)], None))
+    g0 = gen.insert_gaps(rng, seqs[:1], 0.5, "-")[0]
+    if "-" not in g0:
+        g0 = g0[:1] + "--" + g0[1:]
+    out.append(("gapped_record_on_stdin_plus_bare_file", [f(fmt.write_fasta(recs[1:]))], fmt.write_fasta([(names[0], g0)]).encode()))
     # one-record last part
     out.append(("split_last_part_one_record", [f(fmt.write_fasta(recs[:-1])), f(fmt.write_fasta(recs[-1:]))], None))
     # empty part in the middle / at the end
@@ -136,10 +144,10 @@ def presentations(ck, rng, recs, paths, base_rows, tier):
         if os.path.exists(o):
             out.append(("kalign_own_%s_output" % F, [o], None))
     if tier == "quick":
-        keep = rng.sample(out, min(14, len(out)))
+        keep = rng.sample(out, min(16, len(out)))
         # always keep the split presentations with a one-record / empty part
-        must = [p for p in out if "one_record" in p[0] or "empty" in p[0] or "stdin" in p[0] or "leading_blank" in p[0] or "stray_gap" in p[0] or "plain_then_aligned" in p[0] or "unwrapped" in p[0]]
-        out = must + [p for p in keep if p not in must][:max(0, 14 - len(must))]
+        must = [p for p in out if "one_record" in p[0] or "empty" in p[0] or "stdin" in p[0] or "leading_blank" in p[0] or "stray_gap" in p[0] or "plain_then_aligned" in p[0] or "unwrapped" in p[0] or "gapped_record" in p[0] or "gapped_file" in p[0]]
+        out = must + [p for p in keep if p not in must][:max(0, 16 - len(must))]
     return out
 
 
